@@ -30,6 +30,7 @@ EXTENDS Integers, Sequences, FiniteSets, TLC, Json
 
 CONSTANTS MaxOps,      \* operator nodes per tree (exactly)
           OpSet,       \* "all" or "core": which operator classes are used
+          Atoms,       \* "simple": identifiers and literals; "rich": also sub-query, EXISTS, array subscript, interval
           Emit
 
 \* ---- abstract syntax ----------------------------------------------------------------
@@ -53,9 +54,20 @@ CaseE(c, r, el) == [T |-> "CaseExpression", WhenClauses |-> <<[T |-> "WhenClause
 Hole         == [T |-> "Hole"]
 
 HasNot(t) == "Not" \in DOMAIN t
+\* operands that are not operator nodes of the ladder (they parse as primaries)
+SubSel == [T |-> "SelectStatement", Columns |-> <<Id("b")>>, From |-> <<[T |-> "TableReference", Name |-> "u"]>>, TableName |-> "u"]
+SubQ   == [T |-> "SubqueryExpression", Subquery |-> SubSel]
+ExistsQ == [T |-> "ExistsExpression", Subquery |-> SubSel]
+ArrSub == [T |-> "ArraySubscriptExpression", Array |-> Id("a"), Indices |-> <<Lit("1", "int")>>]
+Itv    == [T |-> "IntervalExpression", Value |-> "1 day"]
+AtomTypes == {"Identifier", "LiteralValue", "SubqueryExpression", "ExistsExpression", "ArraySubscriptExpression", "IntervalExpression"}
+IsAtom(t) == t.T \in AtomTypes
 
 \* the atoms that fill the leaves of a shape, left to right (distinct, so that a swap is visible)
-AtomAt(k) == CASE k % 7 = 1 -> Id("a") [] k % 7 = 2 -> Lit("1", "int") [] k % 7 = 3 -> Id("b")
+AtomAt(k) == IF Atoms = "rich" /\ k % 2 = 0
+             THEN (CASE (k \div 2) % 4 = 1 -> SubQ [] (k \div 2) % 4 = 2 -> ArrSub [] (k \div 2) % 4 = 3 -> ExistsQ [] OTHER -> Itv)
+             ELSE
+             CASE k % 7 = 1 -> Id("a") [] k % 7 = 2 -> Lit("1", "int") [] k % 7 = 3 -> Id("b")
                [] k % 7 = 4 -> Lit("x", "string") [] k % 7 = 5 -> QId("t", "c") [] k % 7 = 6 -> Lit("2.5", "float")
                [] OTHER -> Id("d")
 
@@ -89,7 +101,7 @@ Shapes(n) ==
 RECURSIVE NH(_), Fill(_, _)
 SeqNH(xs) == IF xs = <<>> THEN 0 ELSE NH(xs[1]) + (IF Len(xs) > 1 THEN NH(xs[2]) ELSE 0)
 NH(t) == CASE t.T = "Hole" -> 1
-           [] t.T \in {"Identifier", "LiteralValue"} -> 0
+           [] IsAtom(t) -> 0
            [] t.T = "BinaryExpression" -> NH(t.Left) + NH(t.Right)
            [] t.T \in {"UnaryExpression", "CastExpression"} -> NH(t.Expr)
            [] t.T = "BetweenExpression" -> NH(t.Expr) + NH(t.Lower) + NH(t.Upper)
@@ -99,7 +111,7 @@ NH(t) == CASE t.T = "Hole" -> 1
 FillSeq(xs, k) == IF Len(xs) = 1 THEN <<Fill(xs[1], k)>> ELSE <<Fill(xs[1], k), Fill(xs[2], k + NH(xs[1]))>>
 Fill(t, k) ==
     CASE t.T = "Hole" -> AtomAt(k)
-      [] t.T \in {"Identifier", "LiteralValue"} -> t
+      [] IsAtom(t) -> t
       [] t.T = "BinaryExpression" -> [t EXCEPT !.Left = Fill(t.Left, k), !.Right = Fill(t.Right, k + NH(t.Left))]
       [] t.T \in {"UnaryExpression", "CastExpression"} -> [t EXCEPT !.Expr = Fill(t.Expr, k)]
       [] t.T = "BetweenExpression" -> [t EXCEPT !.Expr = Fill(t.Expr, k), !.Lower = Fill(t.Lower, k + NH(t.Expr)),
@@ -124,7 +136,7 @@ Level(t) == CASE t.T = "BinaryExpression" -> (IF IsIsNull(t) \/ IsLike(t) THEN 4
 \* mode: 0 = parentheses only where the ladder requires, -1 = around every operator node,
 \* k >= 1 = additionally around the k-th operator node in pre-order, -2 = around every atom (operand) only
 RECURSIVE R(_, _, _, _), NOps(_)
-NOps(t) == CASE t.T \in {"Identifier", "LiteralValue"} -> 0
+NOps(t) == CASE IsAtom(t) -> 0
              [] t.T = "BinaryExpression" -> 1 + NOps(t.Left) + (IF IsIsNull(t) THEN 0 ELSE NOps(t.Right))
              [] t.T \in {"UnaryExpression", "CastExpression"} -> 1 + NOps(t.Expr)
              [] t.T = "BetweenExpression" -> 1 + NOps(t.Expr) + NOps(t.Lower) + NOps(t.Upper)
@@ -132,7 +144,12 @@ NOps(t) == CASE t.T \in {"Identifier", "LiteralValue"} -> 0
              [] t.T = "FunctionCall" -> 1 + NOps(t.Arguments[1]) + (IF Len(t.Arguments) > 1 THEN NOps(t.Arguments[2]) ELSE 0)
              [] t.T = "CaseExpression" -> 1 + NOps(t.WhenClauses[1].Condition) + NOps(t.WhenClauses[1].Result) + NOps(t.ElseClause)
 
-AtomToks(t) == IF t.T = "Identifier" THEN (IF "Table" \in DOMAIN t THEN <<t.Table, ".", t.Name>> ELSE <<t.Name>>)
+SubToks == <<"SELECT", "b", "FROM", "u">>
+AtomToks(t) == IF t.T = "SubqueryExpression" THEN <<"(">> \o SubToks \o <<")">>
+               ELSE IF t.T = "ExistsExpression" THEN <<"EXISTS", "(">> \o SubToks \o <<")">>
+               ELSE IF t.T = "ArraySubscriptExpression" THEN <<"a", "[", "1", "]">>
+               ELSE IF t.T = "IntervalExpression" THEN <<"INTERVAL", "'1 day'">>
+               ELSE IF t.T = "Identifier" THEN (IF "Table" \in DOMAIN t THEN <<t.Table, ".", t.Name>> ELSE <<t.Name>>)
                ELSE IF t.Type = "null" THEN <<"NULL">>
                ELSE IF t.Type = "string" THEN <<"'" \o t.Value \o "'">>
                ELSE <<t.Value>>
@@ -140,7 +157,7 @@ AtomToks(t) == IF t.T = "Identifier" THEN (IF "Table" \in DOMAIN t THEN <<t.Tabl
 \* R(t, need, mode, idx): tokens of t in a slot that requires level >= need; idx = pre-order index of t's root
 Wrap(ts) == <<"(">> \o ts \o <<")">>
 R(t, need, mode, idx) ==
-    IF t.T \in {"Identifier", "LiteralValue"} THEN (IF mode = -2 THEN Wrap(AtomToks(t)) ELSE AtomToks(t))
+    IF IsAtom(t) THEN (IF mode = -2 THEN Wrap(AtomToks(t)) ELSE AtomToks(t))
     ELSE
     LET body ==
         CASE t.T = "BinaryExpression" /\ IsIsNull(t) ->
@@ -257,7 +274,11 @@ PJsonLoop(left, ts) ==
     ELSE [t |-> left, r |-> ts]
 PPrimary(ts) ==
     LET h == Hd(ts) IN
-    IF h = "(" THEN LET e == POr(Tail(ts)) IN
+    IF h = "(" /\ Len(ts) >= 6 /\ SubSeq(ts, 2, 5) = SubToks /\ ts[6] = ")" THEN [t |-> SubQ, r |-> SubSeq(ts, 7, Len(ts))]
+    ELSE IF h = "EXISTS" /\ Len(ts) >= 7 /\ ts[2] = "(" /\ SubSeq(ts, 3, 6) = SubToks /\ ts[7] = ")" THEN [t |-> ExistsQ, r |-> SubSeq(ts, 8, Len(ts))]
+    ELSE IF h = "INTERVAL" /\ Len(ts) >= 2 /\ ts[2] = "'1 day'" THEN [t |-> Itv, r |-> Tail(Tail(ts))]
+    ELSE IF h = "a" /\ Len(ts) >= 4 /\ ts[2] = "[" /\ ts[3] = "1" /\ ts[4] = "]" THEN [t |-> ArrSub, r |-> SubSeq(ts, 5, Len(ts))]
+    ELSE IF h = "(" THEN LET e == POr(Tail(ts)) IN
                     IF Failed(e) THEN e ELSE IF Hd(e.r) = ")" THEN [t |-> e.t, r |-> Tail(e.r)] ELSE Err(e.r)
     ELSE IF h = "CASE"
       THEN IF Hd(Tail(ts)) # "WHEN" THEN Err(ts) ELSE
